@@ -148,6 +148,11 @@ package rosmar
 //@ fn (*Collection).SubdocInsert
 //@   ensures [C02,C18:SubdocInsert.delegates] count("call:Collection.subdocWrite") == 1 && callarg("Collection.subdocWrite", 0) == c && callarg("Collection.subdocWrite", 1) == key && callarg("Collection.subdocWrite", 2) == subdocKey && callarg("Collection.subdocWrite", 3) == cas && callarg("Collection.subdocWrite", 5) && err == callret("Collection.subdocWrite", 1)
 
+//@ fn (*Collection).WriteSubDoc
+//@   ensures [C02,C18:WriteSubDoc.delegates] count("call:Collection.subdocWrite") <= 1 && (count("call:Collection.subdocWrite") == 1 ==> callarg("Collection.subdocWrite", 0) == c && callarg("Collection.subdocWrite", 1) == key && callarg("Collection.subdocWrite", 2) == subdocKey && callarg("Collection.subdocWrite", 3) == cas && !callarg("Collection.subdocWrite", 5) && casOut == callret("Collection.subdocWrite", 0) && err == callret("Collection.subdocWrite", 1))
+//@   ensures [C18:WriteSubDoc.bad-json] count("call:Collection.subdocWrite") == 0 ==> err != nil && db == old(db)
+//@   ensures [C18:WriteSubDoc.empty-removes] len(rawValue) == 0 ==> count("call:Collection.subdocWrite") == 1 && callarg("Collection.subdocWrite", 4) == nil
+
 // ---------------------------------------------------------------------------------------------------------------
 // collection.go: writers
 
